@@ -18,7 +18,8 @@ LEVEL_TEXT = (
     'run (direct calls and formulas over real ranges): exhaustive short criteria strings over the alphabet '
     '"<>=-1a ", every operator x operand x column, keys at every position, every column / CHOOSE index; the '
     'formula route places the ranges at varying columns/rows/sheets and includes loaded workbooks with defined '
-    'names (for tables, columns, cells; some spelled like the text literals used as keys and criteria).')
+    'names (for tables, columns, cells; some spelled like the text literals used as keys and criteria) and long '
+    'ranges with long runs of equal, zero, FALSE and empty-text cells.')
 LEVEL_NOTE = (
     'Trusted: Lean kernel (propext, Classical.choice, Quot.sound); the hand model of the Python statements '
     '(validated by correspondence, not proved equal to the Python), in particular Python re for the regex '
@@ -54,6 +55,8 @@ ASSUMPTIONS = [
     'CHOOSE with a fractional index between n and n+1 is not constrained (Excel truncates, the code rejects)',
     'COUNTIFS with ranges of unequal length is not constrained (the code silently drops or mis-groups them)',
     'SUMIF/SUMIFS are excluded when the installed pandas has no DataFrame.applymap',
+    'runs of more than 100 consecutive empty cells (blank or empty text) inside a range are the known cut-off D6/D1403 '
+    '(C03/C14) and are not generated here; zeros, FALSE and every other value may repeat without bound',
     'defined names in the test workbooks are words of letters (no name that reads as a cell reference, a function '
     'or differs from another name only in case); a text literal denotes its text whatever names exist',
 ]
@@ -262,7 +265,8 @@ def run(ctx):
         'sheets, quoted sheet names), plus workbooks written with openpyxl and loaded with read_and_parse_archive '
         'that define names for the table, its columns and single cells - some spelled exactly like text literals '
         '(keys, criteria, CHOOSE values) of the formulas -, data addressed by range or by name, 2-D and one-row '
-        'criteria ranges. '
+        'criteria ranges; and long columns / rows (100-300 cells, any place) with runs of 50-250 equal cells - 0, 0.0, '
+        'FALSE, TRUE, duplicates, empty text (<= 100 in a row) - through COUNTIF/COUNTIFS/MATCH/VLOOKUP formulas. '
         'Real result vs Spec (violation) and vs Lean model (drift). non-trivial = distinct request whose Spec '
         'result is constrained and is not 0 / #N/A' % (5 if thorough else 4))
 
@@ -273,6 +277,19 @@ def run(ctx):
 
     # ---------------------------------------------------------------- corpus / replay first
     for inp in load_inputs(ctx):
+        if inp.get('route') == 'long-range':
+            unrun = lambda runs: [v for v, k in runs for _ in range(k)]       # noqa: E731
+            col, col2 = unrun(inp['runs_of_first_range']), unrun(inp['runs_of_second_range'])
+            cells_, later_, _ = long_cells(col, col2, inp['layout'] == 'row', tuple(inp['place']))
+            spec = parse_kv(ctx.driver.batch(['\t'.join(['C15'] + inp['request'])])[0])['spec']
+            reals = eval_long(cells_, later_, inp['place'][3], [inp['formula']])
+            real = reals[0] if isinstance(reals, list) else 'X:' + type(reals).__name__
+            res.evaluations += 1
+            res.count('long-range:replay')
+            if not (spec == 'ERR' and real.startswith('E:')) and not same_value(real, spec):
+                res.violations.append({'what': f'{inp["fn"]} (formula over a long range) disagrees with the linear-scan '
+                                               'reference', 'input': inp, 'expected': spec, 'got': real})
+            continue
         if inp.get('route') == 'workbook' and 'wb_table' in inp:
             import tempfile
             base = {k: v for k, v in inp.items() if k not in ('route', 'formula', 'place', 'names', 'wb_table')}
@@ -644,6 +661,7 @@ def run(ctx):
     # ================================================================ loaded workbooks with defined names
     if not replay_only:
         run_workbooks(ctx, res, thorough)
+        run_long(ctx, res, thorough)
 
     # ================================================================ SUMIF / SUMIFS where pandas supports them
     if hasattr(pandas.DataFrame, 'applymap'):
@@ -753,6 +771,138 @@ def build_formula(f, place=('Sheet1', 0, 0, 'Sheet1')):
         return None
     cells[f'{fsheet}!CZ1'] = text
     return cells, f'{fsheet}!CZ1'
+
+
+def long_column(rng, ascending=False):
+    """100-300 cells made of runs: long runs (50-250) of one value - 0, 0.0, FALSE, the empty text (at most 100 in a
+    row: longer runs of empty cells are the known cut-off D6), duplicates - separated by short runs"""
+    vals = [0, 0, 0.0, False, '', 5, 2, -1, 'apple', 'b', True, 7]
+    total = rng.randint(100, 300)
+    col = []
+    while len(col) < total:
+        v = rng.choice(vals)
+        n = rng.choice([1, 1, 2, 3, 50, 99, 100, 101, 130, 150, 250])
+        if v == '' and isinstance(v, str):
+            n = min(n, 100)
+            if col and col[-1] == '' and isinstance(col[-1], str):
+                continue
+        col += [v] * min(n, total - len(col))
+    if ascending:
+        empties = [i for i, v in enumerate(col) if v == '' and isinstance(v, str)]
+        for i in empties[100:]:
+            col[i] = 'apple'             # sorting puts the empty texts next to each other: keep the run <= 100
+        col.sort(key=lambda v: (2, int(v)) if isinstance(v, bool) else (1, v.upper()) if isinstance(v, str) else (0, v))
+    return col
+
+
+def runs_of(col):
+    runs = []
+    for v in col:
+        if runs and runs[-1][0] == v and type(runs[-1][0]) is type(v):
+            runs[-1][1] += 1
+        else:
+            runs.append([v, 1])
+    return runs
+
+
+def long_cells(col, col2, as_row, place):
+    """cells of the long-range models: three parallel ranges (data, second criteria range, values) as columns or rows"""
+    sheet, c0, r0, fsheet = place
+    n = len(col)
+    vals = [f'v{i + 1}' if i % 3 else i + 1 for i in range(n)]
+    cells, later = {}, {}
+    for i in range(n):
+        for j, data in enumerate((col, col2, vals)):
+            ci, ri = (i, j) if as_row else (j, i)
+            addr = f'{sheet}!{col_name(c0 + ci)}{r0 + 1 + ri}'
+            v = data[i]
+            if v == '' and isinstance(v, str):
+                later[addr] = v              # read_and_parse_dict indexes value[0]: empty text is set afterwards
+            else:
+                cells[addr] = v
+    return cells, later, vals
+
+
+def eval_long(cells, later, fsheet, formulas):
+    from xlcalculator import ModelCompiler, Evaluator
+    cells = dict(cells)
+    for i, t in enumerate(formulas):
+        cells[f'{fsheet}!{col_name(400)}{i + 1}'] = t
+    try:
+        model = ModelCompiler().read_and_parse_dict(cells)
+        for addr, v in later.items():
+            model.set_cell_value(addr, v)
+        ev = Evaluator(model)
+    except Exception as exc:  # noqa: BLE001
+        return exc
+    return [call_real(ev.evaluate, f'{fsheet}!{col_name(400)}{i + 1}') for i in range(len(formulas))]
+
+
+def run_long(ctx, res, thorough):
+    """Long columns and rows (100-300 cells) with long runs of equal values through formulas in a compiled model:
+    the cells of a range are what is on the sheet, however many equal / zero / FALSE / empty-text cells follow each
+    other.  Expected values from the Lean Spec."""
+    rng = ctx.rng
+    nsets = 24 if thorough else 5
+    for si in range(nsets):
+        sheet, c0, r0, fsheet = random_place(rng)
+        asc = rng.random() < 0.4
+        col = long_column(rng, asc)
+        n = len(col)
+        col2 = [rng.choice([0, 0, 1, 8, 'b', False]) for _ in range(n)] if rng.random() < 0.5 else list(reversed(col))
+        as_row = rng.random() < 0.3          # the same data laid out as one long row (criteria functions only)
+        pre = '' if fsheet == sheet else sheet_ref(sheet) + '!'
+        cells, later, vals = long_cells(col, col2, as_row, (sheet, c0, r0, fsheet))
+        if as_row:
+            ref = lambda j: f'{pre}{col_name(c0)}{r0 + 1 + j}:{col_name(c0 + n - 1)}{r0 + 1 + j}'   # noqa: E731
+        else:
+            ref = lambda j: f'{pre}{col_name(c0 + j)}{r0 + 1}:{col_name(c0 + j)}{r0 + n}'           # noqa: E731
+        items = []
+        crits = ['>=0', '<1', '<=-1', '>0', '<>0', '0', '=0', '<>apple', 'apple', '>=b', '<5', '>=5', 0, 5, False, True,
+                 '<=7', '<>b']
+        for c in rng.sample(crits, 9):
+            items.append((f'=COUNTIF({ref(0)},{lit(c)})', ['countif', wv(c), wflat(col)],
+                          {'fn': 'COUNTIF', 'range': col, 'criteria': c}))
+            c2 = rng.choice(crits)
+            items.append((f'=COUNTIFS({ref(0)},{lit(c)},{ref(1)},{lit(c2)})',
+                          ['countifs', wflat(col), wv(c), wflat(col2 + [c2])],
+                          {'fn': 'COUNTIFS', 'pairs': [(col, c), (col2, c2)]}))
+        if not as_row:
+            keys = list(dict.fromkeys((type(v).__name__, v) for v in col))
+            keys = [k for _, k in keys if not (k == '' and isinstance(k, str))] + [9, 'zz', 1]
+            tb = [[col[i], col2[i], vals[i]] for i in range(n)]
+            tref = f'{pre}{col_name(c0)}{r0 + 1}:{col_name(c0 + 2)}{r0 + n}'
+            for key in keys:
+                for mt in (0, 1):
+                    items.append((f'=MATCH({lit(key)},{ref(0)},{mt})', ['match', wv(key), wrows([[x] for x in col]), wv(mt)],
+                                  {'fn': 'MATCH', 'lookup': key, 'array': col, 'match_type': mt}))
+                for ci in (1, 3):
+                    items.append((f'=VLOOKUP({lit(key)},{tref},{ci},FALSE)',
+                                  ['vlookup', wv(key), wrows(tb), wv(ci), 'B:0'],
+                                  {'fn': 'VLOOKUP', 'lookup': key, 'table': tb, 'col': ci, 'range_lookup': False}))
+        resp = ctx.driver.batch(['\t'.join(['C15'] + req) for _, req, _ in items])
+        todo = [(t, parse_kv(r)['spec'], inp) for (t, _, inp), r in zip(items, resp) if parse_kv(r).get('spec', '-') != '-']
+        reals = eval_long(cells, later, fsheet, [t for t, _, _ in todo])
+        if isinstance(reals, Exception):
+            res.violations.append({'what': 'a model with a long column does not compile',
+                                   'input': {'length': n, 'place': [sheet, c0, r0, fsheet]}, 'expected': 'a model',
+                                   'got': repr(reals)})
+            continue
+        reqs = {t: req for t, req, _ in items}
+        for (t, spec, inp), real in zip(todo, reals):
+            res.evaluations += 1
+            res.count('long-range:' + inp['fn'])
+            if spec not in ('I:0', 'E:NA'):
+                res.nontrivial.add('long\t' + t + '\t' + str(si))
+            if not (spec == 'ERR' and real.startswith('E:')) and not same_value(real, spec):
+                res.violations.append({'what': f'{inp["fn"]} (formula over a long range) disagrees with the linear-scan '
+                                               'reference',
+                                       'input': {'fn': inp['fn'], 'formula': t, 'runs_of_first_range': runs_of(col),
+                                                 'runs_of_second_range': runs_of(col2), 'request': reqs[t],
+                                                 'layout': 'row' if as_row else 'column',
+                                                 'place': [sheet, c0, r0, fsheet], 'route': 'long-range'},
+                                       'expected': spec, 'got': real})
+        res.count('long-range:models')
 
 
 NAME_WORDS = ['apple', 'Pear', 'Total', 'zed', 'kiwi', 'Rent', 'Food', 'Labels']
